@@ -237,8 +237,8 @@ func c07Direct(id int, steps []dStep, C, B int, producers, consumers []string, n
 			}
 		case "ConsStart":
 			ok = th.at == "start" && d.advance(th, st.K) && th.at == "bq.take.checked"
-		case "ConsNotify":
-			ok = d.advance(th, "go") && th.at == "bq.take.notified"
+		case "ConsNotify": // two hops: the hook inside notifyWorkers (after its closed check), then the one after the notification
+			ok = d.advance(th, "go") && th.at == "bq.notify.checked" && d.advance(th, "go") && th.at == "bq.take.notified"
 		default: // loader actions
 			hop := func() bool { return d.advance(lt, "go") }
 			until := func(pt string, max int) bool {
